@@ -56,7 +56,7 @@ def run(prop, tier="quick", seed=0):
         try:
             ex = Exec(uni, key, con)
             got = ex.verify()
-            if not [o for o in got if o.kind != "cover"]:
+            if not [o for o in got if not o.kind.startswith("cover")]:
                 undecided.append("%s: zero obligations generated" % key)
             obls += got
             functions.append({"function": key, "module": con.get("module") or uni.modules.get(key.rpartition(".")[0]),
@@ -98,13 +98,25 @@ def run(prop, tier="quick", seed=0):
     # ---------------------------------------------------------------- verdicts
     failed = []
     vacuous = []
+    dead_paths = {}
     for ob in obls:
         if ob.kind == "cover":
             if ob.status == "discharged":
                 vacuous.append(ob)
             continue
+        if ob.kind == "cover-path":
+            d = dead_paths.setdefault(ob.func, [0, 0])
+            d[0] += 1
+            if ob.status == "discharged":
+                d[1] += 1
+            continue
         if ob.status != "discharged":
             failed.append(ob)
+    for fn_, (tot, dead) in dead_paths.items():
+        if tot and dead == tot:
+            ob = Obligation(fn_ + "/cover/all-return-paths-infeasible", [], None, kind="cover", func=fn_)
+            ob.status = "discharged"
+            vacuous.append(ob)
     failed_extras = [e for e in extras if not e.ok]
     known = [k for k in load_known() if k.get("property") == prop and k.get("status", "open") == "open"]
     violations = []
@@ -147,13 +159,13 @@ def run(prop, tier="quick", seed=0):
             violations.append(("bounded", f, f.get("witness")))
 
     # ---------------------------------------------------------------- evidence
-    n_smt = len([o for o in obls if o.kind != "cover"])
-    n_ok = len([o for o in obls if o.kind != "cover" and o.status == "discharged"])
+    n_smt = len([o for o in obls if not o.kind.startswith("cover")])
+    n_ok = len([o for o in obls if not o.kind.startswith("cover") and o.status == "discharged"])
     n_extra_proof = len([e for e in extras if e.kind != "bounded"])
     n_extra_ok = len([e for e in extras if e.kind != "bounded" and e.ok])
     backends = {}
     for o in obls:
-        if o.kind != "cover" and o.status == "discharged":
+        if not o.kind.startswith("cover") and o.status == "discharged":
             backends[o.backend] = backends.get(o.backend, 0) + 1
     for e in extras:
         if e.ok and e.kind != "bounded":
@@ -179,7 +191,8 @@ def run(prop, tier="quick", seed=0):
         "functions_under_contract": functions,
         "backends": backends,
         "solver_seconds": round(sum(o.seconds for o in obls), 2),
-        "cover_checks": len([o for o in obls if o.kind == "cover"]),
+        "cover_checks": len([o for o in obls if o.kind.startswith("cover")]),
+        "return_paths": {k: {"explored": v[0], "infeasible": v[1]} for k, v in dead_paths.items()},
         "vacuous_contracts": [o.name for o in vacuous],
         "undischarged": [{"obligation": o.name, "status": o.status, "detail": (o.detail or "")[:300]} for o in failed],
         "failed_structural": [{"obligation": e.name, "detail": e.detail[:300]} for e in failed_extras],
